@@ -193,3 +193,54 @@ class Check(object):
             r['obligations'] += 1
             r['discharged'] += 1 if o['ok'] else 0
         return out
+
+
+class SubCheck(object):
+    """Runs the rules of another property as ONE rule of this property (a property whose behaviour is built from what
+    the other one decides: e.g. the meaning of a text depends on how its strings and numbers are decoded).
+    Violations are re-reported under the given rule id; findings that are listed as known for the source property are
+    left to that property's own check."""
+
+    def __init__(self, parent, rid, source_pid):
+        self.parent = parent
+        self.rid = rid
+        self.source = source_pid
+        self.tier = parent.tier
+        self.noks = 0
+        self.nfail = 0
+        self.rules = {}
+        self.analysed = {}
+        self.extra = {}
+        self.explanation = ''
+        self.assumptions = []
+        self.trusted = []
+        self.samples = []
+        self._known = set()
+        kf = os.path.join(VERIF, 'known_findings.json')
+        if os.path.exists(kf):
+            with open(kf) as fh:
+                data = json.load(fh)
+            self._known = set((k.get('rule'), k.get('key')) for k in data.get('open', []) if k.get('property') == source_pid)
+
+    def rule(self, rid, text):
+        self.rules[rid] = text
+
+    def ok(self, rule, site, detail='', nontrivial=True, sample=False):
+        self.noks += 1
+
+    def fail(self, rule, key, where, msg, witness=None, site=None):
+        if (rule, key) in self._known:
+            return
+        self.nfail += 1
+        self.parent.fail(self.rid, '%s:%s:%s' % (self.source, rule, key), where, msg + ' [%s %s]' % (self.source, rule), witness=witness)
+
+    def floor(self, name, count, floor):
+        if count < floor:
+            raise Broken('%s (run for %s): %s: rule instance count %d fell below the confirmed floor %d' % (self.source, self.rid, name, count, floor))
+
+    def note(self, s):
+        pass
+
+    def done(self, label):
+        if not self.nfail:
+            self.parent.ok(self.rid, label, '%d obligations of %s discharged (see evidence/%s.json for their list)' % (self.noks, self.source, self.source), sample=True)
